@@ -9,10 +9,11 @@ RULE = ("fixed catalogue of input families f(n) (nested parentheses, nested refe
         "rule-constructor calls (so an exponential family is caught at the first size whose doubling ratio explodes instead of "
         "hanging); measure = deterministic count of Base.__new__ invocations (reader-level and string-level); oracle: doubling "
         "ratio T(2n)/T(n) <= 2^k_f * 1.3 for all n >= 4 and T(n) <= c_f * n^k_f with the family's fixed degree k_f. "
-        "non-trivial = size >= 8")
+        "non-trivial = size >= 8"
+        ' Correspondence of the cost model: Fp.Expr.chainCalls (the subject of the parse_calls_* theorems) == the number of Base.__new__ calls for the 13 chain classes measured on the real parser, on random expressions over plain operands and on the V/N families, both standards.')
 ASSUMPTIONS = ["a bound for unseen n is an extrapolation from the measured sizes; the theorems bound the modelled algorithms "
                "(eval_fuel_mono, parse_cache_once), the leaf classes' own cost is measured"]
-TIE_MODULES = ["FparserModel.Block", "FparserModel.Expr"]
+TIE_MODULES = ["FparserModel.Block", "FparserModel.Expr", "FparserModel.ExprCost"]
 
 BUDGET = 1500000
 
@@ -194,7 +195,93 @@ def count_calls(src, std="f2008", keep=False):
     return cnt[0], cnt[1], kind
 
 
+CHAIN = ("Expr", "Level_5_Expr", "Equiv_Operand", "Or_Operand", "And_Operand", "Level_4_Expr", "Level_3_Expr",
+         "Level_2_Expr", "Level_2_Unary_Expr", "Add_Operand", "Mult_Operand", "Level_1_Expr", "Primary")
+
+
+def real_chain_calls(text, std):
+    """number of Base.__new__ calls whose cls is one of the 13 classes of the expression chain
+    while Fortran2003.Expr(text) runs -> (count, 'tree'|'reject')"""
+    U = real.U
+    real.get_parser(std)
+    orig = U.Base.__new__
+    cnt = [0]
+    chain = set(CHAIN)
+
+    def counting(cls, string, *a, **k):
+        if cls.__name__ in chain:
+            cnt[0] += 1
+            if cnt[0] > BUDGET:
+                raise Budget()
+        return orig(cls, string, *a, **k)
+    U.Base.__new__ = counting
+    try:
+        try:
+            real.F03.Expr(text)
+            kind = "tree"
+        except U.NoMatchError:
+            kind = "reject"
+    finally:
+        U.Base.__new__ = orig
+    return cnt[0], kind
+
+
+def _plain_leaves(t, names):
+    if t[0] == "atom":
+        return ("atom", next(names))
+    if t[0] == "paren":
+        return ("paren", _plain_leaves(t[1], names))
+    return t[:2] + tuple(_plain_leaves(k, names) for k in t[2:])
+
+
+def run_cost_cosim(case):
+    """tie of the cost model (Fp.Expr.chainCalls, the subject of parse_calls_* theorems):
+    the count the model predicts == the count measured on the real parser, on random
+    expressions over plain operands (names), inside the model's boundary, both standards"""
+    import random
+    from fv import cosim_expr as CE
+    from fv.model import get_model
+    m = get_model()
+    rng = random.Random(case["seed"])
+    std = case["std"]
+    res = {"key": ["cost", case["seed"], std], "counts": {}, "findings": [], "nontrivial": True, "keys": []}
+    n = 0
+    for i in range(case["n"]):
+        if i % 7 == 6:
+            # the proved exponential / linear families themselves
+            d = rng.randint(0, 4)
+            fam = rng.choice(["V", "N"])
+            text = "a"
+            for _ in range(d):
+                text = "( %s ) ** c + .y. b" % text if fam == "V" else "( %s )" % text
+            toks = text.split()
+            c = CE.make_case(None, toks, [False] * len(toks), "cost")
+        else:
+            ab = CE.gen_abstract(rng, rng.randint(1, 5))
+            names = iter(["a", "b", "c", "d", "e", "f", "g", "h"] + ["v%d" % j for j in range(200)])
+            tree = CE.parenthesize(_plain_leaves(ab, names), rng, redundant=0.1)
+            toks = CE.tokens_of(tree)
+            glue = CE.rand_glue(rng, toks, rng.choice([0.0, 0.5, 1.0]))
+            c = CE.make_case(tree, toks, glue, "cost", rng)
+            if CE.in_known_boundary(c) or CE.in_lexing_boundary(c):
+                continue
+        rp = m.ask("exprcost", " ".join(c["words"]))[0].split()
+        got, kind = real_chain_calls(c["text"], std)
+        n += 1
+        res["keys"].append(c["text"])
+        res["counts"]["cost:" + kind] = res["counts"].get("cost:" + kind, 0) + 1
+        if len(rp) != 3 or int(rp[0]) != got or rp[2] != kind:
+            res["findings"].append({"signature": "correspondence:Fp.Expr.chainCalls", "no_input": True,
+                                    "what": "cost model and real parser differ on %r: model %s, real %d calls (%s)" % (c["text"], rp, got, kind),
+                                    "replay": {"case": case, "text": c["text"], "words": " ".join(c["words"]), "model": rp, "real": [got, kind]}})
+            break
+    res["evals"] = n
+    return res
+
+
 def run_case(case):
+    if case.get("family") == "cost-cosim":
+        return run_cost_cosim(case)
     name = case["family"]
     genf, k, nq, nt = FAMILIES[name]
     nmax = nt if case["tier"] == "thorough" else nq
@@ -242,12 +329,17 @@ def run_case(case):
 
 
 def cases(tier, seed):
-    return [{"family": f, "tier": tier, "std": std, "_timeout": 900} for f in FAMILIES for std in ("f2008", "f2003")
-            if not (std == "f2003" and f in ("nested-block",))]
+    out = [{"family": f, "tier": tier, "std": std, "_timeout": 900} for f in FAMILIES for std in ("f2008", "f2003")
+           if not (std == "f2003" and f in ("nested-block",))]
+    for i, s in enumerate(util.seeds(seed, util.tier_n(tier, 4, 40), 20)):
+        out.append({"family": "cost-cosim", "seed": s, "n": 120, "std": "f2003" if i % 2 else "f2008", "tier": tier, "_timeout": 900})
+    return out
 
 
 def run(tier, rep, st):
     results = engine.run_cases(__name__, cases(tier, rep.seed), rep)
     rep.evaluations = sum(r.get("evals", 0) for r in results)
-    rep.coverage["tables"] = {r["_case"]["family"] + "/" + r["_case"].get("std", ""): r.get("table") for r in results}
+    rep.coverage["tables"] = {r["_case"]["family"] + "/" + r["_case"].get("std", ""): r.get("table") for r in results
+                              if r["_case"]["family"] != "cost-cosim"}
+    rep.coverage["cosim_cases"] = rep.coverage["cost_cosim_expressions"] = sum(r.get("evals", 0) for r in results if r["_case"]["family"] == "cost-cosim")
     rep.coverage["exhaustive"] = True
